@@ -633,14 +633,18 @@ void i_generate_node (parse_node_t * expr) {
         i_generate_node (expr->v.expr);
         end_pushes ();
         ins_byte (F_FOREACH);
-        if (expr->l.expr->v.number == F_GLOBAL_LVALUE)
-          tmp |= 1;
+        /* F_FOREACH reads bit 1 for the lvalue it fetches last (the only variable, or the VALUE variable of a
+         * mapping iteration) and bit 2 for the KEY variable of a mapping iteration, which it fetches first */
         if (expr->r.expr)
           {
             tmp |= 4;
-            if (expr->r.expr->v.number == F_GLOBAL_LVALUE)
+            if (expr->l.expr->v.number == F_GLOBAL_LVALUE)
               tmp |= 2;
+            if (expr->r.expr->v.number == F_GLOBAL_LVALUE)
+              tmp |= 1;
           }
+        else if (expr->l.expr->v.number == F_GLOBAL_LVALUE)
+          tmp |= 1;
         ins_byte ((BYTE)tmp);
         ins_byte ((BYTE)expr->l.expr->l.number);
         if (expr->r.expr)
